@@ -56,6 +56,12 @@ Theorem C10_escape_output_valid : forall s,
 Proof. exact (fun s => conj (escape_valid_path s) (escape_valid_fragment s)). Qed.
 Print Assumptions C10_escape_output_valid.
 
+(* Values.Encode never writes an empty pair: the forwarded piece of the query carries exactly
+   the forwarded parameters and nothing else (the oracle rejects a stray '&') *)
+Theorem C10_encode_no_empty_pair : forall q, no_empty_piece (values_encode q) = true.
+Proof. exact encode_no_empty_piece. Qed.
+Print Assumptions C10_encode_no_empty_pair.
+
 (* ---- the gin parameter checker ---- *)
 
 Theorem C10_checker_sound : forall v,
@@ -303,6 +309,12 @@ Proof. vm_compute. reflexivity. Qed.
 
 Example C10_ex_double_encoding :
   escape MPath (escape MPath "a b") = "a%2520b" /\ param_ok (escape MPath "a b") = false.
+Proof. vm_compute. auto. Qed.
+
+(* url_pattern ending in a bare '?': the forwarded parameters follow directly, no stray '&' *)
+Example C10_ex_bare_question_mark :
+  option_map o_rawquery (assemble_glue "http://h" "/b?" [("k", ["v"])]) = Some "k=v" /\
+  fwd_ok_b [("k", ["v"])] "&k=v" = false.
 Proof. vm_compute. auto. Qed.
 
 Example C10_ex_assemble :
